@@ -50,7 +50,8 @@ def main():
         print(json.dumps(rec, indent=1))
         dst = os.path.join(VERIF, "harmless", f"{pid}-{name}")
         os.makedirs(dst, exist_ok=True)
-        shutil.copy(os.path.join(src, "patch.diff"), dst)
+        if os.path.realpath(src) != os.path.realpath(dst):
+            shutil.copy(os.path.join(src, "patch.diff"), dst)
         if os.path.exists(os.path.join(src, "equiv.py")) and os.path.realpath(src) != os.path.realpath(dst):
             shutil.copy(os.path.join(src, "equiv.py"), dst)
         meta = {}
